@@ -21,6 +21,12 @@
      StartUnit = "byte"  the reader uses hostGroupEntry.Start as a byte offset (reader.go:218 as found)
                = "host"  ... as a host index                        (repaired)
 
+   (A third defect of the same regime is NOT a switch of the model: AddIndex as found takes over a reader's
+   host group by aliasing the reader's slice of the host section, so a later append overwrites the first
+   hosts of the reader's next group.  The model has value semantics, i.e. the repaired behaviour; the regime
+   "hosts-appended-to-group-sharing-the-readers-host-section" of IndexFileMergeMC.tla steers the real code
+   into it and the trace predicates Visible / InputsIntact catch it there.)
+
    IndexFileMC.tla checks Decode(Encode(S)) = S and merge invisibility exhaustively for small
    inputs and prints regime-covering vectors; IndexFileTrace.tla validates what the real
    code did. *)
@@ -343,7 +349,7 @@ AddAll(g, rg, h, remap, nAdded) ==
 RECURSIVE MapGroup(_, _, _)
 MapGroup(groups, rg, wi) ==
     IF wi > Len(groups)
-    THEN [groups |-> Append(groups, [size |-> rg.size, bytes |-> rg.bytes, len |-> rg.len]),     \* aliases the reader's slice
+    THEN [groups |-> Append(groups, [size |-> rg.size, bytes |-> rg.bytes, len |-> rg.len]),     \* as found: aliases the reader's slice (see head)
           to |-> wi - 1, remap |-> [h \in 1 .. rg.n |-> h - 1]]
     ELSE LET r == AddAll(groups[wi], rg, 0, <<>>, 0)
          IN IF r.ok THEN [groups |-> [groups EXCEPT ![wi] = r.g], to |-> wi - 1, remap |-> r.remap]
